@@ -157,7 +157,7 @@ def cases(tier):
     if tier == "quick":
         nmax, depth, arms = 3, 1, ARMS_QUICK
     else:
-        nmax, depth, arms = 3, 2, ARMS_ALL
+        nmax, depth, arms = 3, 2, ARMS_ALL[:6]   # (8 arm lists took 45 min for 245 k bodies; 6 lists: about 100 k)
     n = 0
     for total in range(1, nmax + 1):
         for seq in sequences(total, depth, arms):
